@@ -28,6 +28,13 @@ EU8 == Enum("uint8", << Sym("x", SmallInt(200)), Sym("y", SmallInt(3)) >>)
 EI64 == Enum("int64", << Sym("lo", Int(TRUE, Pow2(63))), Sym("hi", Nat0(AllOnes(63))), Sym("neg", NegSmall(2)) >>)
 F3 == Flags("int32", << FlagSym("r", 0), FlagSym("w", 1), FlagSym("x", 2) >>)
 FU64 == Flags("uint64", << FlagSym("low", 0), FlagSym("top", 63), FlagSym("mid", 30) >>)
+\* the base type of an enum / flags named through an alias of the integer primitive (`base: Code` with `Code: uint16`): the
+\* encoding is that of the primitive the alias stands for
+WithAliasedBase(e) == [k |-> e.k, base |-> e.base, syms |-> e.syms, balias |-> TRUE]
+EU16 == Enum("uint16", << Sym("a", SmallInt(1)), Sym("big", SmallInt(300)), Sym("top", Nat0(AllOnes(16))) >>)
+AliasedBases == { WithAliasedBase(EU8), WithAliasedBase(EU16), WithAliasedBase(FU64), WithAliasedBase(EI64),
+                  Vec(WithAliasedBase(EU16)), Rec(<< Field("e", WithAliasedBase(EU8)), Field("f", WithAliasedBase(FU64)) >>),
+                  Union(<<Case("code", WithAliasedBase(EU16)), Case("bool", P("bool"))>>, TRUE) }
 \* a symbol of two bits declared before the symbols of its single bits
 FM == Flags("uint8", << FlagSymM("readWrite", {0, 1}), FlagSym("read", 0), FlagSym("exec", 2) >>)
 R2 == Rec(<< Field("x", P("uint64")), Field("y", P("int32")) >>)                 \* the Point of binary.md
@@ -85,7 +92,7 @@ UnionsOfAliasedUnions ==
     Union(<<Case("string", P("string")), Case("maybeS", Alias(Opt(P("string"))))>>, TRUE),
     Vec(Union(<<Case("bool", P("bool")), Case("innerIS", Alias(UIS))>>, FALSE)),
     Rec(<< Field("a", P("int8")), Field("u", Union(<<Case("float32", P("float32")), Case("innerISn", Alias(UISn))>>, TRUE)) >>) }
-NamedTypes == UnionsOfAliasedUnions \cup RNamed \cup PodContainers \cup AliasedAt \cup ContainersOfUnionish \cup UnionsOfContainers \cup { RGenU, Vec(RGenU), RPod, RPod2, E3, EU8, EI64, F3, FU64, FM, Vec(FM), Rec(<< Field("m", FM), Field("k", P("int8")) >>), R2, ROpt, REmpty, Alias(P("int32")), Alias(P("string")), Alias(Vec(P("float32"))) }
+NamedTypes == AliasedBases \cup UnionsOfAliasedUnions \cup RNamed \cup PodContainers \cup AliasedAt \cup ContainersOfUnionish \cup UnionsOfContainers \cup { RGenU, Vec(RGenU), RPod, RPod2, E3, EU8, EI64, F3, FU64, FM, Vec(FM), Rec(<< Field("m", FM), Field("k", P("int8")) >>), R2, ROpt, REmpty, Alias(P("int32")), Alias(P("string")), Alias(Vec(P("float32"))) }
 
 KeyTypes == { P("string"), P("int32"), P("uint64"), P("int8"), Alias(P("string")) }
 
